@@ -598,6 +598,25 @@ def r13_5(run, cx):
     run.floor("uses of caller-supplied source lists", n, 1)
 
 
+def file_identity_order(run, model, rule):
+    """read_source_files orders and de-duplicates the input files of a package by file identity, not by path spelling"""
+    SEP = "crates/compiler/src/pipeline/separate.rs"
+    f = model.fn("read_source_files", SEP)
+    helpers = {g.name for g in model.fns("crates/compiler/src/pipeline/packages.rs") + model.fns(SEP) if g.body is not None and
+               any(c["k"] == "MethodCall" and c["method"] == "canonicalize" for c in S.walk(g.body))}
+    ops = [c for c in S.walk(f.body) if c["k"] == "MethodCall" and (c["method"].startswith("sort") or c["method"].startswith("dedup"))]
+    if not any(c["method"].startswith("sort") for c in ops):
+        raise AnalysisIncomplete("read_source_files: the sort of the input files was not found")
+    first = min((c["sp"][0], c["sp"][1]) for c in ops)
+    canon = [c for c in S.walk(f.body) if ((c["k"] == "MethodCall" and c["method"] == "canonicalize") or
+                                            (c["k"] in ("Call", "MethodCall") and S.callee_name(c) in helpers - {f.name}))
+             and (c["sp"][0], c["sp"][1]) < first]
+    run.ob(rule, "read_source_files|input files ordered and de-duplicated by file identity", bool(canon), site(SEP, f.node["sp"]),
+           f"{len(ops)} sort/dedup operation(s) on the input list; paths resolved to files before them: {len(canon)}",
+           witness="build --input a.gom ./b.gom sorts ./b.gom first and gives another interface_hash than --input a.gom b.gom; "
+                   "--input a.gom ./a.gom compiles the file twice; link then rejects the dependants (rebuild Main)")
+
+
 def run(run, model):
     cx = Ctx(run, model)
     run.try_rule(r13_1, cx)
@@ -608,6 +627,9 @@ def run(run, model):
     from rules import c14
     run.rule("R13.6", "the link order does not depend on the order of the inputs (shared with C14: link_cores always uses the canonical topo_sort)")
     run.try_rule(c14.canonical_link_order, model, "R13.6")
+    run.rule("R13.7", "the same files give the same interface however they are spelt on the command line: the file order decides DefId "
+                      "numbering and export order, which are hashed, so read_source_files sorts and de-duplicates resolved files")
+    run.try_rule(file_identity_order, model, "R13.7")
     run.assume("E1 resolves callees with Instance::try_resolve under TypingEnv::post_analysis on the real cargo build "
                "(dev profile, default features, lib+bin targets of all 8 workspace crates); iteration hidden behind a "
                "dyn Iterator or inside non-workspace generic code receiving a hash container by value is only seen for the "
